@@ -1,6 +1,6 @@
 (* C16 -- serving stops cleanly and bind failures are reported, not swallowed.
    Theorems only.  n = number of listener goroutines (two per address). *)
-From NX Require Import Bytes Listen ListenFacts ListenRace.
+From NX Require Import Bytes Listen ListenFacts ListenRace Start StartFacts.
 Open Scope Z_scope.
 
 (* every reachable state, for every n, every bind outcome, every cancellation
@@ -43,3 +43,10 @@ Theorem C16_hang_refuted :
     nth_error (ths s) 1 = Some (mkTh LServing SOpen true).
 Proof. exact listen_hang_refuted. Qed.
 Print Assumptions C16_hang_refuted.
+
+(* ---- the start wrapper (run.go proxySvc.start) ---- *)
+(* with room for one error in the channel (F23 repair), whatever the interleaving of the starter and the
+   listener goroutine, start never returns nil for a listener that had failed by then *)
+Theorem C16_start_reports : forall ls s, srun true sinit ls = Some s -> false_success s = false.
+Proof. exact start_reports_failure. Qed.
+Print Assumptions C16_start_reports.
